@@ -546,7 +546,16 @@ func (x *Exec) zeroGhosts(st *State, ref smt.T) {
 		default:
 			continue
 		}
-		hn, hs := x.ghostHeap(g)
+		poly := false
+		for _, p := range g.Params {
+			if p[1] == "any" {
+				poly = true
+			}
+		}
+		if poly {
+			continue
+		}
+		hn, hs := x.ghostHeap(g, nil)
 		h := x.heap(st, hn, hs)
 		row := elemSortOf(hs)
 		v := smt.T{S: zero, Sort: row}
